@@ -1,5 +1,6 @@
 import Rustemo.Model.Glr
 import Rustemo.Model.GlrCert
+import Rustemo.Model.GlrNoDupCert
 import Rustemo.Model.Dump
 import Rustemo.Model.Print
 /-!
@@ -204,6 +205,13 @@ def handleGlr (d : Dump) (args : String) : String :=
   match args.splitOn " #" with
   | [req, mat] =>
     match fields req with
+    | ["nodup", pp, inp] =>
+      -- per-input certificate of `C03_engine_no_duplicates_from_poss_facts`: `PossFacts` of the result graph, no
+      -- repeated root, acyclic unfolding (`Proofs/GlrNoDup4.lean`), evaluated on the model's result
+      let input := unhexBytes inp
+      (match parse (envOfDump d input (parseMatrix mat)) (pp == "1") (glrFuel input) with
+       | .ok r => s!"nodup possfacts={b01 (possFactsB r.gss)} roots={b01 (decide r.roots.Nodup)} acyclic={b01 (!(r.fastHasCut (cutTable r.gss)))}"
+       | _ => "nodup na")
     | [pp, inp] =>
       let input := unhexBytes inp
       renderGlr (parse (envOfDump d input (parseMatrix mat)) (pp == "1") (glrFuel input)) 64
